@@ -70,25 +70,30 @@ def run(ctx):
     mc = dict(MaxReq=ctx.pick(3, 5))
     ctx.tlc("socket", "DirectAddrUpdate", cfg="DirectAddrUpdate_Fixed.cfg", mode="mc", constants=mc,
             require_actions=["ScheduleRun", "OnDone", "Probe", "UnlockF", "SendDoneF"])
+    # the two named deviations are refuted on the model
     ctx.tlc("socket", "DirectAddrUpdate", cfg="DirectAddrUpdate_AsWritten.cfg", mode="mc", constants=mc,
             expect_violation="NoStuckWant")
+    ctx.tlc("socket", "DirectAddrUpdate", cfg="DirectAddrUpdate_ClearOnHeld.cfg", mode="mc", constants=mc,
+            expect_violation="NoLostRequest")
     # growth: the required design with relay-map changes (a run on an empty map returns early) and shutdown
     ctx.tlc("socket", "DirectAddrUpdate", cfg="DirectAddrUpdate_FixedMap.cfg", mode="mc", constants=dict(MaxReq=ctx.pick(4, 6)),
             require_actions=["ScheduleRun", "MapChange", "Close", "OnDone", "Probe", "UnlockF", "SendDoneF"])
+    # words of the unlock-first structure: all with <= 2 requests, and of those with 3 (thorough: 4) requests the family in
+    # which a done signal is handled while a newer run holds the lock and an update is queued behind it (ghost `stale`)
     res = ctx.tlc("socket", "DirectAddrUpdate", cfg="DirectAddrUpdate_Gen.cfg", mode="gen",
-                  constants=dict(MaxReq=ctx.pick(2, 3)),
-                  require_actions=["ScheduleRun", "OnDone", "Probe", "SendDoneA", "UnlockA"])
+                  constants=dict(MaxReq=ctx.pick(3, 4), EmitAllUpTo=ctx.pick(2, 3)),
+                  require_actions=["ScheduleRun", "OnDone", "Probe", "UnlockF", "SendDoneF"])
     words = res.replays
     if not words:
         raise ToolError("DirectAddrUpdate_Gen produced no words")
+    if not any(stale_word(w["word"]) for w in words):
+        raise ToolError("the generator produced no word with a stale done signal meeting a queued update")
     if not ctx.quick:
-        # all words with <= 2 requests, plus a seeded sample of the 328 words with 3 requests (each word costs ~4 s of
-        # real net reports and settle time)
         import random
-        small = [w for w in words if w["word"].count("req") <= 2]
-        big = [w for w in words if w["word"].count("req") > 2]
+        small = [w for w in words if w["word"].count("req") <= 3]
+        big = [w for w in words if w["word"].count("req") > 3]
         random.Random(ctx.seed).shuffle(big)
-        words = small + big[:120]
+        words = small + big[:60]
     outs = run_harness(ctx, words, "g")
     accepted = judge(ctx, words, outs, "g")
     binding_selftest(ctx, accepted)
@@ -116,6 +121,29 @@ def run_harness(ctx, words, tag):
 
 def trace_lines(o):
     return [{"ev": "reset", "lock": "", "want": False, "n": 0, "runs": 0}] + o["events"]
+
+
+def stale_word(word):
+    """req while a done signal is pending and the lock is free (starts a run directly), a further req (queued), and only
+    then the on_done for the earlier signal."""
+    lock, pending, want = False, 0, False
+    for st in word:
+        if st == "req":
+            if lock:
+                want = True
+            else:
+                lock = True
+        elif st == "unlock":
+            lock = False
+        elif st == "send_done":
+            pending += 1
+        elif st == "on_done":
+            if pending and lock and want:
+                return True
+            pending = max(0, pending - 1)
+            if not lock and want:
+                lock, want = True, False
+    return False
 
 
 def busy_request(word):
@@ -146,7 +174,9 @@ def classify(events, idx, inv):
     elif inv == "AtMostOneRun":
         sched, wrong = "any", "two_runs_at_once"
     elif inv == "NoLostWant":
-        sched, wrong = "request_while_running", "requested_update_forgotten"
+        stale = any(e["ev"] == "try_run" and e["lock"] == "held" and e["want"] for e in events[:idx])
+        sched = "stale_done_signal_handled_while_newer_run_holds_lock" if stale else "request_while_running"
+        wrong = "requested_update_forgotten"
     return {"inv": inv, "at": events[idx]["ev"], "schedule": sched, "wrong": wrong}
 
 
